@@ -361,6 +361,10 @@ func ShouldRespond(w Watcher, id string, request *discovery.DiscoveryRequest) (b
 		log.Warnf("ADS:%s: ACK ERROR %s %s:%s", stype, id, errCode.String(), request.ErrorDetail.GetMessage())
 		IncrementXDSRejects(request.TypeUrl, w.GetID(), errCode.String())
 		w.UpdateWatchedResource(request.TypeUrl, func(wr *WatchedResource) *WatchedResource {
+			// A NACK may arrive for a type that is not watched on this stream (e.g. a non-conformant client).
+			if wr == nil {
+				return nil
+			}
 			wr.LastError = request.ErrorDetail.GetMessage()
 			return wr
 		})
